@@ -349,6 +349,14 @@ class Client(BaseClient):
             message.EnableBLOB(device=device, value=const.BLOBEnable.ONLY)
         )
 
+    def process_blob_message(self, msg: IndiMessage):
+        # until "enableBLOB Only" for a device has taken effect, the server sends
+        # that device's ordinary traffic on the BLOB connection as well; the
+        # control connection carries it too, and a duplicate that arrives late
+        # must not overwrite newer state
+        if isinstance(msg, message.SetBLOBVector):
+            self.process_message(msg)
+
     async def start(self):
         """Starts client and connects to the server.
 
@@ -358,7 +366,7 @@ class Client(BaseClient):
             self.process_message
         )
         self.blob_connection_handler = await self.blob_connection.connect(
-            self.process_message, for_blobs=True
+            self.process_blob_message, for_blobs=True
         )
 
         asyncio.get_running_loop().create_task(
